@@ -1447,10 +1447,42 @@ class SpaceManager(SharedSpaceOperations):
                 cells.bases[0].get_repr(fullname=True, add_params=False)))
 
         old_name = cells.name
+        subs = self._get_subs(cells.parent)
 
-        for space in self._get_subs(cells.parent, skip_self=False):
-            space.clear_subs_rootitems()
-            space.cells[old_name].on_rename(name)
+        # Sub cells are renamed unless derived from cells not renamed
+        renamed = [cells]
+        for space in subs:
+            c = space.cells[old_name]
+            if name not in space.cells and (
+                    c.is_defined() or c.defined_bases[0] in renamed):
+                renamed.append(c)
+
+        for c in renamed:
+            c.parent.clear_subs_rootitems()
+            c.on_rename(name)
+
+        # Derive cells of the names from the bases not renamed
+        for space in subs:
+            self._derive_cells(space, old_name)
+            self._derive_cells(space, name)
+
+    def _derive_cells(self, space, name):
+        """Derive cells ``name`` in ``space`` from its bases from scratch"""
+        bases = [b.cells[name] for b in self._get_space_bases(space)
+                 if name in b.cells and b.cells[name].is_defined()]
+
+        if name in space.cells:
+            if space.cells[name].is_defined():
+                return
+            elif not bases:
+                space.on_del_cells(name)
+                return
+        elif bases:
+            UserCellsImpl(space=space, name=name, is_derived=True)
+        else:
+            return
+
+        space.cells[name].on_inherit(self, bases)
 
     def sort_cells(self, space):
         """Sort cells in a space
